@@ -39,6 +39,13 @@ BASE = {
     "lumi-shapefactor": {"channels": [("c1", 2, [("sig", [("normfactor", "mu"), ("lumi", "lumi")]), ("bkg", [("shapefactor", "sf"), ("lumi", "lumi"), ("histosys", "h1")])])], "poi": "mu"},
     "mergeable": {"channels": [("c1", 2, [("sig", [("normfactor", "mu")]), ("b1", [("normsys", "n1"), ("histosys", "h1"), ("staterror", "st")]),
                                           ("b2", [("normsys", "n1"), ("histosys", "h1"), ("staterror", "st")])])], "poi": "mu", "tie": [("c1.b1.normsys.n1", "c1.b2.normsys.n1")]},
+    # ... and with a second sample whose first bin is empty but carries a finite MC uncertainty
+    "mergeable-empty-bin": {"channels": [("c1", 2, [("sig", [("normfactor", "mu")]), ("b1", [("normsys", "n1"), ("histosys", "h1"), ("staterror", "st")]),
+                                                    ("b2", [("normsys", "n1"), ("histosys", "h1"), ("staterror", "st")])])], "poi": "mu",
+                            "tie": [("c1.b1.normsys.n1", "c1.b2.normsys.n1")], "zeros": ["c1.b2.n0"]},
+    # two Poisson-constrained sets whose alphabetical order (s2 < ss) is the reverse of their order after the renaming (c_ss < z_s2)
+    # and of their declaration order, with different bin counts
+    "two-shapesys": {"channels": [("c1", 3, [("bkg", [("shapesys", "ss")])]), ("c2", 2, [("bkg", [("shapesys", "s2")]), ("sig", [("normfactor", "mu")])])], "poi": "mu"},
     # the same with a second sample that declares no MC uncertainty (data-driven): merging must still change nothing
     "mergeable-datadriven": {"channels": [("c1", 2, [("sig", [("normfactor", "mu")]), ("b1", [("normsys", "n1"), ("histosys", "h1"), ("staterror", "st")]),
                                                      ("b2", [("normsys", "n1"), ("histosys", "h1"), ("staterror", "st")])])], "poi": "mu",
@@ -75,7 +82,7 @@ def rw_reorder(spec, poi="mu"):
 def rw_rename(spec, poi="mu"):
     cm = {"c1": "zz_c1", "c2": "aa_c2"}
     sm = {"sig": "x_sig", "bkg": "a_bkg", "b1": "q1", "b2": "a2"}
-    mm = {"mu": "zmu", "n1": "b_n1", "h1": "a_h1", "st": "y_st", "ss": "c_ss", "sf": "m_sf"}
+    mm = {"mu": "zmu", "n1": "b_n1", "h1": "a_h1", "st": "y_st", "ss": "c_ss", "sf": "m_sf", "s2": "z_s2"}
     s = dcopy(spec)
     for c in s["channels"]:
         c["name"] = cm.get(c["name"], c["name"])
@@ -180,7 +187,7 @@ def rw_rescale(spec, poi="mu"):
 
 REWRITES = {"reorder": rw_reorder, "rename": rw_rename, "zero": rw_zero, "noop": rw_noop, "split": rw_split, "merge": rw_merge, "rescale": rw_rescale}
 APPLICABLE = {"two-channels": ["reorder", "rename", "zero", "noop", "split", "rescale"], "lumi-shapefactor": ["reorder", "rename", "split", "rescale", "noop"],
-              "mergeable": ["merge", "reorder"], "mergeable-datadriven": ["merge"]}
+              "mergeable": ["merge", "reorder"], "mergeable-datadriven": ["merge"], "mergeable-empty-bin": ["merge"], "two-shapesys": ["rename", "reorder"]}
 
 
 def compose(f, g):
